@@ -499,6 +499,18 @@ def rule_f(ctx, ix):
         from .. import cond as _c
         pc_cut = _c.path_condition(f.node, cuts[0], expand=False) or ('const', True)
         cands = [n_ for n_ in sorted(trues & falses) if n_ in _c.atoms(pc_cut)]
+        # the flag is tested right where the cut happens: the innermost `if` around the cut that tests a local
+        pm_ = parent_map(f.node)
+        stored_ = {n_.id for n_ in ast.walk(f.node) if isinstance(n_, ast.Name) and isinstance(n_.ctx, ast.Store)} - set(f.params)
+        cur_ = pm_.get(id(cuts[0]))
+        while cur_ is not None and cur_ is not f.node:
+            if isinstance(cur_, ast.If):
+                near = sorted({n_.id for n_ in ast.walk(cur_.test) if isinstance(n_, ast.Name)} & stored_ & set(_c.atoms(pc_cut)))
+                if near:
+                    if len(near) == 1:
+                        cands = near
+                    break
+            cur_ = pm_.get(id(cur_))
         if len(cands) != 1:
             # the flag may get its value from a helper (`view, flag = self._combine(...)`): the one local the cut is tested on
             stored = {n_.id for n_ in ast.walk(f.node) if isinstance(n_, ast.Name) and isinstance(n_.ctx, ast.Store)}
